@@ -16,6 +16,10 @@ mod discard;
 mod info;
 mod read;
 mod write;
+#[cfg(qcow2_rs_verif)]
+mod verif;
+#[cfg(qcow2_rs_verif)]
+pub use self::verif::{VerifSlice, VerifSnapshot};
 use self::alloc::HostCluster;
 pub use self::info::{Qcow2DevParams, Qcow2Info};
 
